@@ -95,6 +95,20 @@ func checkC14(p *core.Program, r *core.Report) {
 	tokenFields := map[*types.Var]bool{}
 	for _, a := range arms {
 		name := shortFn(p.FnName(a.fn))
+		// values inside the goroutine body: free variables resolve to their binding (Canon); parameters of a
+		// goroutine started as `go c.method(args)` resolve to the arguments of the go statement
+		a := a
+		resolve := func(v ssa.Value) ssa.Value {
+			v = core.Canon(v)
+			if pa, ok := v.(*ssa.Parameter); ok && pa.Parent() == a.body {
+				for i, q := range a.body.Params {
+					if q == pa && i < len(a.goInstr.Call.Args) && a.goInstr.Call.StaticCallee() == a.body {
+						return core.Canon(a.goInstr.Call.Args[i])
+					}
+				}
+			}
+			return v
+		}
 		// R4
 		key := "timer goroutine of " + name + " waits once"
 		if core.InLoop(a.sel.Block()) {
@@ -132,7 +146,7 @@ func checkC14(p *core.Program, r *core.Report) {
 				continue
 			}
 			nOther++
-			src := core.Canon(st.Chan)
+			src := resolve(st.Chan)
 			key := "stop arm of timer goroutine of " + name
 			if mk, ok := src.(*ssa.MakeChan); ok && mk.Parent() == a.fn {
 				token = mk
@@ -224,9 +238,9 @@ func checkC14(p *core.Program, r *core.Report) {
 					return false
 				}
 				var fieldSide ssa.Value
-				if core.Canon(bo.X) == token {
+				if resolve(bo.X) == token {
 					fieldSide = bo.Y
-				} else if core.Canon(bo.Y) == token {
+				} else if resolve(bo.Y) == token {
 					fieldSide = bo.X
 				} else {
 					return false
